@@ -1,5 +1,6 @@
 import Scion.Proofs.Scmp
 import Scion.Gen.Scmp
+import Scion.Gen.Stun
 /-!
 # C08 — router packet processing never crashes and never forwards malformed packets
 
@@ -260,6 +261,29 @@ theorem stun_guarded (b : Bytes) : stunParse b ≠ .panic := by
         · simp
         · obtain ⟨pre, hpre, _⟩ := slice?_some b 0 (b.length - 8) (by omega)
           rw [hpre]; simp
+
+/-- The guards, length computations and slice expressions of `stun.foreachAttr` / `stun.Is` that
+`stunAttrs` / `stunIs` transcribe are the ones in the source (regenerated): in particular the bound
+check compares the **padded** length with the rest, and the cursor advances by the padded length. -/
+theorem stun_source_guards :
+    Scion.Gen.Stun.foreachAttr_conds = ["for len(b) > 0", "len(b) < 4", "attrLenWithPad > len(b)", "err != nil"] ∧
+    Scion.Gen.Stun.foreachAttr_slices = ["b[:2]", "b[2:4]", "b[4:]", "b[:attrLen]", "b[attrLenWithPad:]"] ∧
+    Scion.Gen.Stun.foreachAttr_assigns =
+      ["attrLen := int(binary.BigEndian.Uint16(b[2:4]))", "attrLenWithPad := (attrLen + 3) &^ 3"] ∧
+    Scion.Gen.Stun.Is_conds =
+      ["return len(b) >= headerLen && b[0]&0b11000000 == 0 && string(b[4:8]) == magicCookie"] ∧
+    Scion.Gen.Stun.headerLen = stunHeaderLen ∧ Scion.Gen.Stun.attrNumFingerprint = stunFingerprintAttr ∧
+    Scion.Gen.Stun.lenFingerprint = 8 :=
+  ⟨rfl, rfl, rfl, rfl, rfl, rfl, rfl⟩
+
+/-- Why the padded length matters: the slice `b[attrLenWithPad:]` of the model is out of range as
+soon as only the unpadded value fits — a last attribute of length 1 followed by its value byte but
+not by its three padding bytes.  (With the guard `attrLen > len(b)` this input would reach it.) -/
+example : slice? [0x78] ((1 + 3) / 4 * 4) 1 = none ∧ slice? [0x78] 0 1 = some [0x78] := by decide
+
+/-- and the model refuses that datagram as malformed instead -/
+example : stunParse ([0, 1, 0, 5, 0x21, 0x12, 0xa4, 0x42] ++ List.replicate 12 7 ++ [0x80, 0x22, 0, 1, 0x78]) =
+    .malformed := by decide
 
 /-- the halves of `Statement` that are about modelled code hold -/
 theorem statement_partial : Statement :=
